@@ -97,6 +97,13 @@ class World:
                 def server_requested(self, listen_host, listen_port):
                     return True
             sopts['server_factory'] = lambda: self._mk_srv(Srv)
+        if prog == 'rfwd2':
+            # the server application takes (virtual) time to decide: several global requests stay outstanding
+            class Srv(P.RecServer):
+                async def server_requested(self, listen_host, listen_port):
+                    await asyncio.sleep(30)
+                    return listen_port != 8023
+            sopts['server_factory'] = lambda: self._mk_srv(Srv)
         self.pair = P.Pair(self.loop, sopts=sopts, env=self.env)
         if getattr(self, '_srv_owner', None) is not None:
             self.pair.server_owner = self._srv_owner
@@ -152,6 +159,17 @@ class World:
         lst = await conn.forward_remote_port('', 8022, 'localhost', 22)
         self.listener = lst
         await lst.wait_closed()
+
+    async def prog_rfwd2(self, conn):
+        async def one(port):
+            try:
+                lst = await conn.forward_remote_port('', port, 'localhost', 22)
+            except asyncssh.ChannelListenError:
+                return
+            await lst.wait_closed()
+        self.tasks['fwd-b'] = self.loop.create_task(one(8023))
+        self.tasks['fwd-c'] = self.loop.create_task(one(8024))
+        await one(8022)
 
     async def prog_two(self, conn):
         t1 = self.loop.create_task(self.prog_exec(conn))
@@ -228,6 +246,8 @@ def run(cfg, chooser):
                 # quiescent with the connection still up: actions are still possible
                 pass
             menu = opts + [('act', n, f) for n, f in acts]
+            if loop.next_timer() is not None and not (pair.ct.lost or pair.st.lost):
+                menu.append(('timer', 'fire', None))        # the next virtual timer fires now
             if not opts:
                 # default at a fully quiescent point: stop (the final cut follows)
                 menu = [('stop', None, None)] + menu
@@ -236,7 +256,9 @@ def run(cfg, chooser):
             if kind == 'stop':
                 break
             trace.append('%s:%s' % (kind, name))
-            if kind == 'deliver':
+            if kind == 'timer':
+                loop.advance()
+            elif kind == 'deliver':
                 head = [c for c in obj.peer.outq if c is EOF or c.label != 2][:1]
                 if head and head[0] is not EOF and head[0].label == 97:
                     closes[name] += 1
@@ -249,7 +271,7 @@ def run(cfg, chooser):
                 raise Livelock('schedule too long')
         # ---- oracle 1: connection still up, channel closed both ways -------
         c_up = pair.c._transport is not None and pair.s._transport is not None
-        single = prog not in ('two', 'sftp', 'rfwd')
+        single = prog not in ('two', 'sftp', 'rfwd', 'rfwd2')
         if c_up and single and closes['cs'] >= 1 and closes['sc'] >= 1:
             if pair.c._channels or pair.s._channels:
                 viol.append(('channel-registered-after-close',
@@ -333,7 +355,7 @@ def worker(job):
 
 
 def jobs(tier):
-    progs = ['exec', 'stream', 'run', 'sftp', 'rfwd']
+    progs = ['exec', 'stream', 'run', 'sftp', 'rfwd', 'rfwd2']
     if tier == 'thorough':
         progs.append('two')
     out = []
@@ -368,7 +390,8 @@ def main(tier, seed):
     js = jobs(tier)
     acc = core.pmap(worker, core.rotate(js, seed), chunksize=2)
     rule = ('client programs {exec via callback session, stream session with blocked drain/read, run, '
-            'sftp with outstanding requests, remote port forward listener} x server behaviours {echo, '
+            'sftp with outstanding requests, remote port forward listener, three concurrent remote forward requests '
+            'against a slow server application} x server behaviours {echo, '
             'silent, reject exec, close instead of answering, exit at once with data pending, EOF only}; '
             'at every quiescent point the explorer may deliver either direction\'s next packet or inject '
             'one of {cut, close/abort/disconnect of either connection, close/abort/exit of the channel on '
